@@ -27,6 +27,10 @@ func decodeElementInitValueVector(r *bytes.Reader) ([]wasm.Index, error) {
 		return nil, fmt.Errorf("get size of vector: %w", err)
 	}
 
+	// Reject a declared size that the remaining input cannot hold before allocating for it.
+	if err = checkVectorSize(r, vs); err != nil {
+		return nil, err
+	}
 	vec := make([]wasm.Index, vs)
 	for i := range vec {
 		u32, _, err := leb128.DecodeUint32(r)
@@ -46,6 +50,10 @@ func decodeElementConstExprVector(r *bytes.Reader, elemType wasm.RefType, enable
 	vs, _, err := leb128.DecodeUint32(r)
 	if err != nil {
 		return nil, fmt.Errorf("failed to get the size of constexpr vector: %w", err)
+	}
+	// Reject a declared size that the remaining input cannot hold before allocating for it.
+	if err = checkVectorSize(r, vs); err != nil {
+		return nil, err
 	}
 	vec := make([]wasm.Index, vs)
 	for i := range vec {
